@@ -6,10 +6,11 @@ KIND = {"RD": dict(cas=1, ras=0, we=0, is_read=1, is_write=0, is_cmd=0),
         "WR": dict(cas=1, ras=0, we=1, is_read=0, is_write=1, is_cmd=0),
         "ACT": dict(cas=0, ras=1, we=0, is_read=0, is_write=0, is_cmd=1),
         "PRE": dict(cas=0, ras=1, we=1, is_read=0, is_write=0, is_cmd=1)}
-DFIK = {(1, 1, 1): "NONE", (0, 1, 0): "WR", (0, 1, 1): "RD", (1, 0, 1): "ACT", (1, 0, 0): "PRE"}    # (cas_n, ras_n, we_n)
+DFIK = {(1, 1, 1): "NONE", (0, 1, 0): "WR", (0, 1, 1): "RD", (1, 0, 1): "ACT", (1, 0, 0): "PRE",    # (cas_n, ras_n, we_n)
+        (0, 0, 1): "REF", (1, 1, 0): "ZQCS"}
 
 
-def run_mux(sc, workdir):
+def run_mux(sc, workdir, with_refresh=False):
     env.setup()
     from migen import Module, Signal, passive
     from litex.soc.interconnect import stream
@@ -72,13 +73,64 @@ def run_mux(sc, workdir):
             for phs in dut.dfi.phases:
                 k = DFIK.get(((yield phs.cas_n), (yield phs.ras_n), (yield phs.we_n)), "OTHER")
                 ph.append(dict(kind=k, bm=(yield phs.bank)))
-            rows.append(dict(req=reqs, ready=ready, dfi=ph))
+            row = dict(req=reqs, ready=ready, dfi=ph)
+            if with_refresh:
+                rk = {(1, 0, 1): "PREA", (1, 1, 0): "REF", (0, 0, 1): "ZQCS", (0, 0, 0): "NOP"}.get(
+                    ((yield dut.ref.cmd.ras), (yield dut.ref.cmd.cas), (yield dut.ref.cmd.we)), "OTHER")
+                g = True
+                for bm in dut.bms:
+                    g = g and bool((yield bm.refresh_gnt))
+                row["rin"] = dict(valid=bool((yield dut.ref.cmd.valid)), last=bool((yield dut.ref.cmd.last)), kind=rk, gnt=g)
+                row["refready"] = bool((yield dut.ref.cmd.ready))
+                for d in ph:
+                    if d["kind"] == "OTHER":
+                        # refresher opcodes on the DFI pins: (cas_n, ras_n, we_n)
+                        pass
+            rows.append(row)
             yield
     mon.cur = list(cur)
+
+    rstate = dict(phase=0, t=0, gnt=[0] * nbm, gdelay=[0] * nbm)
 
     def drv():
         n = len(stim) if stim else sc["ncyc"]
         for c in range(n):
+            if with_refresh:
+                # refresher + bank-machine refresh protocol (the environment of the multiplexer's REFRESH path)
+                ready = (yield dut.ref.cmd.ready)
+                if rstate["phase"] == 0 and rnd.random() < p.get("pref", 0.02):
+                    rstate["phase"] = 1                     # request
+                    rstate["gdelay"] = [rnd.randrange(0, 6) for _ in range(nbm)]
+                elif rstate["phase"] == 1 and ready:
+                    rstate["phase"], rstate["t"] = 2, 0      # granted: play PREA .. REF .. last
+                elif rstate["phase"] == 2:
+                    rstate["t"] += 1
+                    if rstate["t"] > 2 + p.get("trp", 2) + p.get("trfc", 3):
+                        rstate["phase"] = 0
+                        rstate["gnt"] = [0] * nbm
+                ph_, t_ = rstate["phase"], rstate["t"]
+                kind = "NOP"
+                if ph_ == 2 and t_ == 1:
+                    kind = "PREA"
+                elif ph_ == 2 and t_ == 1 + p.get("trp", 2):
+                    kind = "REF"
+                last = int(ph_ == 2 and t_ == 2 + p.get("trp", 2) + p.get("trfc", 3))
+                yield dut.ref.cmd.valid.eq(int(ph_ in (1, 2) and not last))
+                yield dut.ref.cmd.last.eq(last)
+                yield dut.ref.cmd.ras.eq(int(kind in ("PREA", "REF")))
+                yield dut.ref.cmd.cas.eq(int(kind == "REF"))
+                yield dut.ref.cmd.we.eq(int(kind == "PREA"))
+                for i, bm in enumerate(dut.bms):
+                    if ph_ == 0:
+                        rstate["gnt"][i] = 0
+                    elif ph_ == 1 and not rstate["gnt"][i] and cur[i] in ("NONE", "RD", "WR"):
+                        # a bank machine in REGULAR drops what it presents and grants after its timers (random delay)
+                        if rstate["gdelay"][i] <= 0:
+                            rstate["gnt"][i] = 1
+                            cur[i] = "NONE"
+                        else:
+                            rstate["gdelay"][i] -= 1
+                    yield bm.refresh_gnt.eq(rstate["gnt"][i])
             # observe acceptance of the cycle that just ended, then choose the next requests (legal per bank, held until accepted)
             for i, bm in enumerate(dut.bms):
                 acc = (yield bm.cmd.valid) and (yield bm.cmd.ready)
@@ -91,7 +143,7 @@ def run_mux(sc, workdir):
             for i, bm in enumerate(dut.bms):
                 if stim:
                     cur[i] = stim[c][i]
-                elif cur[i] == "NONE" and rnd.random() < p.get("pnew", 0.6):
+                elif cur[i] == "NONE" and rnd.random() < p.get("pnew", 0.6) and not (with_refresh and rstate["phase"] != 0):
                     cur[i] = rnd.choice(["RD", "WR", "RD", "WR", "PRE"] if opn[i] else ["ACT"])
                 k = cur[i]
                 yield bm.cmd.valid.eq(int(k != "NONE"))
@@ -106,12 +158,15 @@ def run_mux(sc, workdir):
     consts = dict(NB=nbm, Nph=nph, RdPhase=p["rdphase"], WrPhase=p["wrphase"], tRRD=p["tRRD"] or 0, tFAW=p["tFAW"] or 0,
                   tCCD=p["tCCD"] or 0, tWTRc=p["tWTR"] + write_latency + (p["tCCD"] or 0), ReadLatency=p["read_latency"],
                   ReadTime=p["read_time"], WriteTime=p["write_time"])
-    cfgp = os.path.join(workdir, "T_Multiplexer.cfg")
+    tmod = "T_MultiplexerR" if with_refresh else "T_Multiplexer"
+    if with_refresh:
+        consts["WtrNeedsRead"] = "FALSE"
+    cfgp = os.path.join(workdir, tmod + ".cfg")
     with open(cfgp, "w") as f:
         f.write("SPECIFICATION TSpec\nINVARIANT AtEnd\nCHECK_DEADLOCK FALSE\nCONSTANTS\n" +
                 "\n".join(" %s = %s" % kv for kv in consts.items()) + "\n")
     tf = os.path.join(workdir, "mux.ndjson")
     tlc.write_ndjson(tf, dict(consts=consts), rows)
-    v = tlc.validate_trace("T_Multiplexer", tf, workdir, cfg=cfgp)
+    v = tlc.validate_trace(tmod, tf, workdir, cfg=cfgp)
     ncmd = sum(1 for r in rows for d in r["dfi"] if d["kind"] != "NONE")
     return dict(cycles=len(rows), commands=ncmd, mismatches=v["bad"], consts=consts, sample=rows[:3])
